@@ -369,25 +369,34 @@ end XRay
 
 structure DFTCfg where
   inShape : List Nat
-  axes : Option (List Nat)
+  axes : Option (List Int)
   axesShape : Option (List Nat)
 deriving Repr
 
+/-- Python list indexing with a possibly negative index (`l[i]`, `l[i] = v`), valid for `−len ≤ i < len` -/
+def pyIx (len : Nat) (i : Int) : Nat := (if i < 0 then (len : Int) + i else i).toNat
+
 /-- result of `DFT.__init__`: (`self.axes`, `output_shape`, `self.inv_axes_shape`);
-    `none` = `ValueError` (length mismatch) -/
-def dftInit (c : DFTCfg) : Option (Option (List Nat) × List Nat × Option (List Nat)) :=
+    `none` = an exception (`ValueError` for a length mismatch, `IndexError` for an axis outside
+    `[−ndim, ndim)`, more trailing axes requested than the array has).  `axes` may be negative: the
+    constructor uses them only as Python indices into the shape lists. -/
+def dftInit (c : DFTCfg) : Option (Option (List Int) × List Nat × Option (List Nat)) :=
+  let nd := c.inShape.length
+  let ok (ax : List Int) : Bool := ax.all (fun a => decide (-(nd : Int) ≤ a ∧ a < nd))
   match c.axes, c.axesShape with
-  | some ax, some s => if ax.length ≠ s.length then none else
-      some (some ax, (ax.zip s).foldl (fun o p => o.set p.1 p.2) c.inShape, some (ax.map (fun i => c.inShape.getD i 0)))
-  | none, some s =>
-      let ax := (List.range s.length).map (fun k => c.inShape.length - s.length + k)
-      some (some ax, (ax.zip s).foldl (fun o p => o.set p.1 p.2) c.inShape, some (ax.map (fun i => c.inShape.getD i 0)))
+  | some ax, some s => if ax.length ≠ s.length then none else if !ok ax then none else
+      some (some ax, ((ax.map (pyIx nd)).zip s).foldl (fun o p => o.set p.1 p.2) c.inShape,
+        some (ax.map (fun i => c.inShape.getD (pyIx nd i) 0)))
+  | none, some s => if nd < s.length then none else
+      let ax : List Int := (List.range s.length).map (fun k => ((nd - s.length + k : Nat) : Int))
+      some (some ax, ((ax.map (pyIx nd)).zip s).foldl (fun o p => o.set p.1 p.2) c.inShape,
+        some (ax.map (fun i => c.inShape.getD (pyIx nd i) 0)))
   | ax, none => some (ax, c.inShape, none)
 
 /-- shape returned by `inv` on an array of shape `out`: `ifftn(z, s=inv_axes_shape, axes=axes)` -/
-def dftInvShape (axes : Option (List Nat)) (out : List Nat) (invAxesShape : Option (List Nat)) : List Nat :=
+def dftInvShape (axes : Option (List Int)) (out : List Nat) (invAxesShape : Option (List Nat)) : List Nat :=
   match axes, invAxesShape with
-  | some ax, some s => (ax.zip s).foldl (fun o p => o.set p.1 p.2) out
+  | some ax, some s => ((ax.map (pyIx out.length)).zip s).foldl (fun o p => o.set p.1 p.2) out
   | _, _ => out
 
 section DFT1
@@ -444,5 +453,232 @@ def kpSqPinned [HasNat α] [Add α] [Sub α] [Mul α] [Div α] (n0 n1 : Nat) (d0
   fftfreq n0 d0 b * fftfreq n0 d0 b + fftfreq n1 d1 a * fftfreq n1 d1 a
 
 end Freq
+
+
+/-! # Round 2 additions -/
+
+/-- `(outer, n, inner)` of axis `a` of a row-major array of shape `shape`: what `linop_over_axes` hands to one
+    `SingleAxisFiniteDifference` in terms of flat indices -/
+def axisSpec (shape : List Nat) (a : Nat) : Nat × Nat × Nat :=
+  (prodL (shape.take a), shape.getD a 1, prodL (shape.drop (a + 1)))
+
+/-! ## Circular convolution in the DFT domain: any spectrum, the centre-shift phases -/
+
+section CircSpec
+variable {α : Type}
+
+/-- `CircularConvolve._eval` on one axis: `ifft(h_dft · fft(x))` for an arbitrary spectrum `h_dft = H`
+    (`ω = exp(−2πi/n)`, `ωinv` its inverse, `s = 1/n`) -/
+def circSpecEval [Add α] [Mul α] [Zero α] [One α] (ω ωinv s : α) (n : Nat) (H x : V α) : V α :=
+  dftInvCropEval ωinv s n (fun f => H f * dftEval ω 1 n n x f)
+
+/-- the shift phases `CircularConvolve.__init__` multiplies into `h_dft`, for `offset k = −h_center` on an axis
+    of length `s`, frequency bin `f`:
+    `np.select([f < s/2, f == s/2, f > s/2], [exp(−i k 2π f/s), cos(kπ), exp(i k 2π (s − f)/s)])`,
+    written with `E t = exp(2πi t)` and `C t = cos(2π t)` (`nat` embeds the integers of `arange`) -/
+def shiftPhase {β : Type} [Neg β] [Mul β] [Div β] (E C : β → α) (nat : Nat → β) (k : β) (s f : Nat) : α :=
+  if 2 * f < s then E (-(k * nat f / nat s))
+  else if 2 * f = s then C (k / nat 2)
+  else E (k * nat (s - f) / nat s)
+
+end CircSpec
+
+/-! ## N-d DFT and N-d circular convolution (row-major flat arrays, recursion over the axes) -/
+
+section Nd
+variable {α : Type}
+
+/-- slab `i` of a row-major `(n, R)` array -/
+def slab (R i : Nat) (x : V α) : V α := fun r => x (i * R + r)
+
+/-- unnormalised N-d DFT over ALL axes of a row-major array of shape `dims` (`fftn`), root `ws[a]` on axis `a`:
+    `X[k] = Σ_j x[j] · Π_a ws[a]^(j_a k_a)`, written axis by axis -/
+def dftNd [Add α] [Mul α] [Zero α] [One α] : List Nat → List α → V α → V α
+  | n :: ds, w :: ws, x => fun p =>
+      sumTo n (fun j => dftNd ds ws (slab (prodL ds) j x) (p % prodL ds) * dftEval.npow w (j * (p / prodL ds)))
+  | _, _, x => x
+
+/-- `fftn(h, s=dims)` first zero-pads the filter (shape `ks`) to the shape `dims` -/
+def padNd [Zero α] : List Nat → List Nat → V α → V α
+  | k :: ks, _ :: ds, h => fun p =>
+      if p / prodL ds < k then padNd ks ds (slab (prodL ks) (p / prodL ds) h) (p % prodL ds) else 0
+  | _, _, h => h
+
+/-- product over the axes of the integer-centre phases `wis[a]^(c_a f_a)` (`wis[a] = exp(+2πi/n_a)`) -/
+def phaseNd [Mul α] [One α] : List Nat → List α → List Nat → Nat → α
+  | _ :: ds, wi :: ws, c :: cs, p => dftEval.npow wi (c * (p / prodL ds)) * phaseNd ds ws cs (p % prodL ds)
+  | _, _, _, _ => 1
+
+/-- signal-domain N-d circular convolution with integer centres `cs`:
+    `y[i] = Σ_{m < ks} h[m] · x[(i + c − m) mod dims]` (sum over the filter taps, axis by axis) -/
+def circNd [Add α] [Mul α] [Zero α] : List Nat → List Nat → List Nat → V α → V α → V α
+  | k :: ks, n :: ds, c :: cs, h, x => fun p =>
+      sumTo k (fun m => circNd ks ds cs (slab (prodL ks) m h)
+        (slab (prodL ds) ((p / prodL ds + c + n - m) % n) x) (p % prodL ds))
+  | _, _, _, h, x => fun _ => h 0 * x 0
+
+/-- `CircularConvolve._eval` over `ndims = dims.length` axes: `ifftn(h_dft · fftn(x))` (`s = 1/Π dims`) -/
+def circNdSpecEval [Add α] [Mul α] [Zero α] [One α] (dims : List Nat) (ws wis : List α) (s : α) (H x : V α) : V α :=
+  fun p => s * dftNd dims wis (fun f => H f * dftNd dims ws x f) p
+
+/-- flat index of the multi-index `(i + c − j) mod dims` -/
+def shiftIdx : List Nat → List Nat → Nat → Nat → Nat
+  | n :: ds, c :: cs, p, q =>
+      ((p / prodL ds + c + n - q / prodL ds) % n) * prodL ds + shiftIdx ds cs (p % prodL ds) (q % prodL ds)
+  | _, _, _, _ => 0
+
+/-- the documented N-d circulant `H[i, j] = h_pad[(i + c − j) mod dims]` -/
+def circMatrixNd [Zero α] (ks dims cs : List Nat) (h : V α) : M α :=
+  fun p q => padNd ks dims h (shiftIdx dims cs p q)
+
+/-- multi-index form of the circulant shift: `(i + c − j) mod dims`, axis by axis -/
+def shiftMI : List Nat → List Nat → List Nat → List Nat → List Nat
+  | n :: ds, c :: cs, i :: is, j :: js => ((i + c + n - j) % n) :: shiftMI ds cs is js
+  | _, _, _, _ => []
+
+end Nd
+
+/-! ## N-d linear convolution and its output modes -/
+
+section ConvNd
+variable {α : Type}
+
+/-- N-d `convolve(x, h, mode)` restricted to an output window: `starts[a]` is the first index of the `full`
+    output kept on axis `a`, `olens[a]` the number of kept outputs (row-major flat indices throughout);
+    `y[i] = Σ_m h[m] · x[i + start − m]` with `x` read as zero outside its shape `dims` -/
+def convNdW [Add α] [Mul α] [Zero α] : List Nat → List Nat → List Nat → List Nat → V α → V α → V α
+  | s :: ss, _ :: os, k :: ks, n :: ds, h, x => fun p =>
+      sumTo k (fun m => if m ≤ p / prodL os + s ∧ p / prodL os + s - m < n then
+        convNdW ss os ks ds (slab (prodL ks) m h) (slab (prodL ds) (p / prodL os + s - m) x) (p % prodL os) else 0)
+  | _, _, _, _, h, x => fun _ => h 0 * x 0
+
+/-- documented N-d Toeplitz matrix: `T[i, j] = h[i + start − j]` where that multi-index is inside the filter -/
+def convMatrixNdW [Zero α] : List Nat → List Nat → List Nat → List Nat → V α → M α
+  | s :: ss, _ :: os, k :: ks, _ :: ds, h => fun p q =>
+      if q / prodL ds ≤ p / prodL os + s ∧ p / prodL os + s - q / prodL ds < k then
+        convMatrixNdW ss os ks ds (slab (prodL ks) (p / prodL os + s - q / prodL ds) h) (p % prodL os) (q % prodL ds)
+      else 0
+  | _, _, _, _, h => fun _ _ => h 0
+
+/-- per-axis window of a mode; `a1`, `a2` are the shapes of the first and second argument of `convolve` -/
+def convStarts (mode : ConvMode) : List Nat → List Nat → List Nat
+  | n1 :: a1, n2 :: a2 => convStart mode n1 n2 :: convStarts mode a1 a2
+  | _, _ => []
+
+def convLens (mode : ConvMode) : List Nat → List Nat → List Nat
+  | n1 :: a1, n2 :: a2 => convLen mode n1 n2 :: convLens mode a1 a2
+  | _, _ => []
+
+end ConvNd
+
+/-! ## Non-constant pad modes, `snp.gradient`, projected gradients -/
+
+/-- the non-constant linear modes of `numpy.pad` accepted by `Pad` -/
+inductive PadMode | edge | wrap | reflect | symmetric
+deriving DecidableEq, Repr
+
+section PadModes
+variable {α : Type}
+
+/-- source position (in `[0, n)`) read by the padded position at offset `t = i − lo` relative to the array -/
+def padSrc (mode : PadMode) (n : Nat) (t : Int) : Int :=
+  match mode with
+  | .edge => if t < 0 then 0 else if t < n then t else (n : Int) - 1
+  | .wrap => t % (n : Int)
+  | .reflect =>
+      if n = 1 then 0 else
+      let u := t % (2 * (n : Int) - 2)
+      if u < n then u else 2 * (n : Int) - 2 - u
+  | .symmetric =>
+      let u := t % (2 * (n : Int))
+      if u < n then u else 2 * (n : Int) - 1 - u
+
+/-- `snp.pad(x, (lo, hi), mode=…)` on a 1-d array of length `n`: a gather -/
+def padModeEval (mode : PadMode) (lo n : Nat) (x : V α) : V α := fun i =>
+  x (padSrc mode n ((i : Int) - lo)).toNat
+
+/-- its matrix: one `1` per row -/
+def padModeMatrix [Zero α] [One α] (mode : PadMode) (lo n : Nat) : M α := fun i j =>
+  if (j : Int) = padSrc mode n ((i : Int) - lo) then 1 else 0
+
+/-- mode `mean`: the padding value is the mean of the axis -/
+def padMeanEval [Add α] [Zero α] [Mul α] [Div α] [One α] (nat : Nat → α) (lo n : Nat) (x : V α) : V α := fun i =>
+  if lo ≤ i ∧ i < lo + n then x (i - lo) else sumTo n x / nat n
+
+def padMeanMatrix [Zero α] [Div α] [One α] (nat : Nat → α) (lo n : Nat) : M α := fun i j =>
+  if lo ≤ i ∧ i < lo + n then (if i = j + lo then 1 else 0) else 1 / nat n
+
+/-- `snp.gradient` (unit spacing, `edge_order = 1`) on a 1-d array of length `n ≥ 2` -/
+def cdiffEval [Sub α] [Div α] (two : α) (n : Nat) (x : V α) : V α := fun i =>
+  if i = 0 then x 1 - x 0
+  else if i + 1 = n then x (n - 1) - x (n - 2)
+  else (x (i + 1) - x (i - 1)) / two
+
+def cdiffMatrix [Zero α] [One α] [Sub α] [Neg α] [Div α] (two : α) (n : Nat) : M α := fun i j =>
+  if i = 0 then ((if j = 1 then (1 : α) else 0) - (if j = 0 then (1 : α) else 0))
+  else if i + 1 = n then ((if j = n - 1 then (1 : α) else 0) - (if j = n - 2 then (1 : α) else 0))
+  else ((if j = i + 1 then (1 : α) else 0) - (if j = i - 1 then (1 : α) else 0)) / two
+
+/-- `ProjectedGradient._eval` for one local axis: `sum([c[m] * grad[m] for m …])` (Python `sum` starts at 0) -/
+def projEval [Add α] [Mul α] [Zero α] : List (V α × V α) → V α
+  | [] => fun _ => 0
+  | (c, g) :: rest => fun i => projEvalAux (0 + c i * g i) rest i
+where projEvalAux (acc : α) : List (V α × V α) → Nat → α
+  | [], _ => acc
+  | (c, g) :: rest, i => projEvalAux (acc + c i * g i) rest i
+
+/-- documented matrix of the projection on one local axis: `Σ_m diag(c_m) · G_m` -/
+def projMatrix [Add α] [Mul α] [Zero α] : List (V α × M α) → M α
+  | [] => fun _ _ => 0
+  | (c, G) :: rest => fun i j => c i * G i j + projMatrix rest i j
+
+end PadModes
+
+/-! ## 2-D X-ray projector: bin indices and weights (`XRayTransform2D._calc_weights`) -/
+
+/-- arguments of `XRayTransform2D._calc_weights` for one view; `u = (cos angle, sin angle)` -/
+structure XGeom (α : Type) where
+  x0a : α
+  x0b : α
+  dxa : α
+  dxb : α
+  y0 : α
+  u0 : α
+  u1 : α
+
+section XGeomDefs
+variable {α : Type} [Add α] [Sub α] [Mul α] [Div α] [Min α] [Max α] [HasAbs α] [HasNat α]
+
+/-- `Px[i, j]`: position (in detector-bin units) of the left edge of the projected pixel `(i, j)` -/
+def XGeom.px (g : XGeom α) (i j : Nat) : α :=
+  let px0 := g.x0a * g.u0 + g.x0b * g.u1 - g.y0
+  let pdx0 := g.dxa * g.u0
+  let pdx1 := g.dxb * g.u1
+  let pxmin := min (min px0 (px0 + pdx0)) (min (px0 + pdx1) (px0 + pdx0 + pdx1))
+  pxmin + pdx0 * HasNat.nat i + pdx1 * HasNat.nat j
+
+/-- width of the projected pixel's (boxcar) footprint: `(max(d1,d2) + min(d1,d2)) / 2` -/
+def XGeom.width (g : XGeom α) : α :=
+  let pdx0 := g.u0 * g.dxa
+  let pdx1 := g.u1 * g.dxb
+  let d1 := HasAbs.abs (pdx0 + pdx1)
+  let d2 := HasAbs.abs (pdx0 - pdx1)
+  (max d1 d2 + min d1 d2) / HasNat.nat 2
+
+/-- `inds = floor(Px)` (`fl` is the floor function: a contract) -/
+def XGeom.ind (g : XGeom α) (fl : α → Int) (i j : Nat) : Int := fl (g.px i j)
+
+/-- `weights = minimum(1 − (Px − inds), width) / width` -/
+def XGeom.wt (g : XGeom α) (fl : α → Int) (ofInt : Int → α) (i j : Nat) : α :=
+  min (HasNat.nat 1 - (g.px i j - ofInt (fl (g.px i j)))) g.width / g.width
+
+end XGeomDefs
+
+section RowCol
+variable {α : Type}
+/-- row sums / column sums of a row-major `(n0, n1)` image -/
+def rowSums [Add α] [Zero α] (n1 : Nat) (x : V α) : V α := fun i => sumTo n1 (fun j => x (i * n1 + j))
+def colSums [Add α] [Zero α] (n0 n1 : Nat) (x : V α) : V α := fun j => sumTo n0 (fun i => x (i * n1 + j))
+end RowCol
 
 end Scico.LinOps
